@@ -73,6 +73,20 @@ pub struct Case {
     /// touched): the simulated kernel only does address arithmetic.
     #[serde(default)]
     pub phantom: Option<Vec<PhantomSpec>>,
+    /// read_n / recv_n into a `ReadBuf` of a pool ("every kind of read
+    /// buffer"): fresh from the pool, or already holding data.
+    #[serde(default)]
+    pub pool: Option<PoolSpec>,
+}
+
+#[derive(Copy, Clone, Debug, Serialize, Deserialize, PartialEq, Eq)]
+pub struct PoolSpec {
+    pub pool_log2: u8,
+    pub buf_size: u16,
+    /// `Some((fill, keep))`: the buffer is first filled by an ordinary pool
+    /// read (fraction `fill` of the buffer) and truncated to a fraction `keep`
+    /// of that, then used for the read_n / recv_n under test.
+    pub prefill: Option<(u16, u16)>,
 }
 
 /// One phantom buffer: its size and (read side) how much of it is filled.
@@ -192,6 +206,11 @@ struct Driver {
     /// memory is recorded as (address, length) spans in order.
     phantom: bool,
     spans: Vec<(usize, usize)>,
+    /// Buffers the kernel selected from a provided-buffer ring: (address,
+    /// size, bytes delivered into it by that request).
+    selected: Vec<(usize, usize, usize)>,
+    /// Non-select requests: (address, size) of the destination.
+    direct: Vec<(usize, usize)>,
 }
 
 fn push_span(spans: &mut Vec<(usize, usize)>, addr: usize, len: usize) {
@@ -219,6 +238,37 @@ impl Driver {
             return;
         }
         let sqe = req.sqe;
+        if !self.is_write && sqe.flags & abi::IOSQE_BUFFER_SELECT != 0 && matches!(sqe.opcode, abi::OP_READ | abi::OP_RECV) {
+            // The kernel picks the buffer (K8).
+            let Some(entry) = ring.select_buffer(sqe.buf_group) else {
+                self.seen.push(Seen { sqe, size: 0, n: 0 });
+                ring.complete(serial, -libc::ENOBUFS, 0, false);
+                return;
+            };
+            let size = entry.len as usize;
+            let t = self.transfers.get(self.next).copied().unwrap_or(Transfer::All);
+            self.next += 1;
+            let n = match t {
+                Transfer::Zero => 0,
+                Transfer::One => size.min(1),
+                Transfer::All | Transfer::FirstBuffer => size,
+                Transfer::Frac(f) => ((f as usize) * (size + 1)) >> 16,
+            };
+            if track::residence(entry.addr as usize, size) == track::Residence::Unknown {
+                self.errors.push(("region".into(), "provided buffer is not in live memory".into()));
+            } else {
+                let data: Vec<u8> = (0..n).map(|j| source_byte(self.delivered + j)).collect();
+                unsafe { std::ptr::copy_nonoverlapping(data.as_ptr(), entry.addr as *mut u8, n) };
+            }
+            self.delivered += n;
+            self.selected.push((entry.addr as usize, size, n));
+            self.seen.push(Seen { sqe, size, n });
+            ring.complete(serial, n as i32, abi::CQE_F_BUFFER | ((entry.bid as u32) << abi::CQE_BUFFER_SHIFT), false);
+            return;
+        }
+        if !self.is_write && matches!(sqe.opcode, abi::OP_READ | abi::OP_RECV) {
+            self.direct.push((sqe.addr as usize, sqe.len as usize));
+        }
         // Gather the data regions in order.
         let data_regions: Vec<&regions::Region> = match sqe.opcode {
             abi::OP_WRITE | abi::OP_READ | abi::OP_SEND | abi::OP_SEND_ZC | abi::OP_RECV => req.regions.iter().filter(|r| r.what == "buffer").collect(),
@@ -390,8 +440,9 @@ impl Property for C10 {
             any::<bool>(),
             proptest::collection::vec(transfer(), 0..12),
             proptest::option::weighted(0.12, proptest::collection::vec(phantom_spec(), 1..=8)),
+            proptest::option::weighted(0.3, (0u8..=2, prop_oneof![1 => 1u16..8, 4 => 1u16..=600], proptest::option::of((any::<u16>(), any::<u16>()))).prop_map(|(pool_log2, buf_size, prefill)| PoolSpec { pool_log2, buf_size, prefill })),
         )
-            .prop_map(move |(op, bufs, mbufs, array, n, offset, flags, zc, extract, transfers, phantom)| Case { op: ops[op], bufs, mbufs, array, n, offset, flags, zc, extract, transfers, phantom })
+            .prop_map(move |(op, bufs, mbufs, array, n, offset, flags, zc, extract, transfers, phantom, pool)| Case { op: ops[op], bufs, mbufs, array, n, offset, flags, zc, extract, transfers, phantom, pool })
             .boxed()
     }
 
@@ -430,7 +481,7 @@ fn run_case(case: &Case, ctx: &mut Ctx) {
     let fd = world.new_fd();
     let afd = world.fd(fd);
     let mut classes: Vec<&'static str> = Vec::new();
-    let mut driver = Driver { is_write: case.op.is_write(), transfers: case.transfers.clone(), next: 0, stream: Vec::new(), delivered: 0, seen: Vec::new(), errors: Vec::new(), zc_ops: false, phantom: case.phantom.is_some(), spans: Vec::new() };
+    let mut driver = Driver { is_write: case.op.is_write(), transfers: case.transfers.clone(), next: 0, stream: Vec::new(), delivered: 0, seen: Vec::new(), errors: Vec::new(), zc_ops: false, phantom: case.phantom.is_some(), spans: Vec::new(), selected: Vec::new(), direct: Vec::new() };
     let zc = case.zc && matches!(case.op, Op::SendAll | Op::SendAllVectored);
 
     let report = |ctx: &mut Ctx, kind: &str, msg: String| {
@@ -439,6 +490,11 @@ fn run_case(case: &Case, ctx: &mut Ctx) {
 
     if let Some(specs) = &case.phantom {
         run_phantom(case, specs, &mut world, afd, &mut driver, ctx);
+        drop(world);
+        return;
+    }
+    if let (Some(spec), Op::ReadN | Op::RecvN) = (&case.pool, case.op) {
+        run_pool(case, spec, &mut world, afd, &mut driver, ctx);
         drop(world);
         return;
     }
@@ -1225,4 +1281,218 @@ fn run_phantom(case: &Case, specs: &[PhantomSpec], world: &mut World, afd: &'sta
     ctx.class(&format!("{:?}", case.op));
     ctx.nontrivial = classes.iter().any(|c| matches!(*c, ">=2-continuations" | "crossed-4GiB"));
     ctx.fingerprint = format!("{:?}|phantom|{}|{:x}", case.op, classes.join("|"), crate::common::fnv(&format!("{case:?}")) & 0xffff);
+}
+
+// ---------------------------------------------------------------------------
+// read_n / recv_n into a pool's ReadBuf.
+
+fn run_pool(case: &Case, spec: &PoolSpec, world: &mut World, afd: &'static a10::AsyncFd, driver: &mut Driver, ctx: &mut Ctx) {
+    use a10::io::{ReadBuf, ReadBufPool};
+    let report = |ctx: &mut Ctx, kind: &str, msg: String| {
+        ctx.violation(&format!("C10:{kind}:{:?}", case.op), msg);
+    };
+    let mut classes: Vec<&'static str> = vec!["pool-buffer"];
+    let pool_size: u16 = 1 << spec.pool_log2.min(3);
+    let cap = spec.buf_size.max(1) as usize;
+    let pool = {
+        let _s = track::scope(track::TAG_A10);
+        ReadBufPool::new(world.sq(), pool_size, cap as u32)
+    };
+    let pool = match pool {
+        Ok(p) => p,
+        Err(e) => {
+            ctx.infra(format!("ReadBufPool::new failed: {e}"));
+            return;
+        }
+    };
+    let fmt_reqs = |seen: &[Seen]| format!("{:?}", seen.iter().map(|s| (s.size, s.n)).collect::<Vec<_>>());
+    // The buffer: fresh, or holding data from an earlier read.
+    let mut shadow: Vec<u8> = Vec::new();
+    let mut slot: Option<usize> = None;
+    let mut buf: ReadBuf = pool.get();
+    if let Some((fill, keep)) = spec.prefill {
+        driver.transfers = vec![Transfer::Frac(fill)];
+        let r = drive(world, driver, { let _s = track::scope(track::TAG_A10); afd.read(buf) });
+        match r {
+            Ok(Ok(b)) => buf = b,
+            Ok(Err(e)) => {
+                ctx.infra(format!("pool read for the pre-fill failed: {e}"));
+                return;
+            }
+            Err(e) => {
+                report(ctx, "panic", e);
+                return;
+            }
+        }
+        let Some(&(addr, _, n)) = driver.selected.first() else {
+            ctx.infra("pre-fill read did not select a buffer");
+            return;
+        };
+        let keep_n = ((keep as usize) * (n + 1)) >> 16;
+        buf.truncate(keep_n);
+        shadow = (0..keep_n).map(source_byte).collect();
+        slot = Some(addr);
+        classes.push("partly-filled");
+        driver.transfers = case.transfers.clone();
+        driver.next = 0;
+        driver.seen.clear();
+        driver.selected.clear();
+        driver.direct.clear();
+    }
+    let delivered_before = driver.delivered;
+    let capacity = cap - shadow.len();
+    if capacity == 0 {
+        ctx.skipped_steps += 1;
+        ctx.fingerprint = "skipped-no-capacity".into();
+        drop_pool(buf, pool);
+        return;
+    }
+    let n = 1 + (((case.n as usize) * capacity) >> 16).min(capacity - 1);
+    let start = match case.offset {
+        Offset::Current => u64::MAX,
+        Offset::At(o) => o,
+        Offset::NearMax(d) => u64::MAX - capacity as u64 - 1 - d as u64,
+    };
+    let positional = !case.op.net() && start != u64::MAX;
+    let (rflags, raw_flags) = recv_flags(case.flags);
+    let use_flags = case.op.net() && case.flags != 0;
+    let result: Result<io::Result<ReadBuf>, String> = if case.op == Op::ReadN {
+        let mut f = { let _s = track::scope(track::TAG_A10); afd.read_n(buf, n) };
+        if positional {
+            f = f.from(start);
+        }
+        drive(world, driver, f)
+    } else {
+        let mut f = { let _s = track::scope(track::TAG_A10); afd.recv_n(buf, n) };
+        if use_flags {
+            f = f.flags(rflags);
+        }
+        drive(world, driver, f)
+    };
+    for (k, m) in driver.errors.drain(..) {
+        report(ctx, &k, m);
+    }
+    // Where every request put its bytes.
+    let mut model_len = shadow.len();
+    let mut sel = driver.selected.iter();
+    let mut dir = driver.direct.iter();
+    for (k, s) in driver.seen.iter().enumerate() {
+        if s.sqe.flags & abi::IOSQE_BUFFER_SELECT != 0 {
+            let Some(&(addr, size, got)) = sel.next() else { continue };
+            if slot.is_some() {
+                report(ctx, "pool-second-buffer", format!("request {k} asks the kernel to select a buffer although the ReadBuf already owns one (holding {model_len} bytes)"));
+                break;
+            }
+            if size != cap {
+                report(ctx, "pool-entry", format!("request {k}: the selected ring entry has length {size}, the pool's buffers are {cap} bytes"));
+            }
+            slot = Some(addr);
+            model_len += got;
+        } else {
+            let Some(&(addr, size)) = dir.next() else { continue };
+            match slot {
+                None => {
+                    report(ctx, "pool-no-select", format!("request {k} reads into {addr:#x}+{size} although the ReadBuf owns no buffer yet"));
+                    break;
+                }
+                Some(sl) => {
+                    if addr != sl + model_len || size != cap - model_len {
+                        report(ctx, "pool-continuation", format!("request {k} reads into {addr:#x}+{size}; the ReadBuf's slot is {sl:#x}+{cap} and holds {model_len} bytes, so the spare part is {:#x}+{}", sl + model_len, cap - model_len));
+                        break;
+                    }
+                }
+            }
+            model_len += s.n;
+        }
+    }
+    let delivered = driver.delivered - delivered_before;
+    let mut got = 0usize;
+    let mut eof_before_n = false;
+    for s in &driver.seen {
+        if s.n == 0 && got < n {
+            eof_before_n = true;
+            break;
+        }
+        got += s.n;
+        if got >= n {
+            break;
+        }
+    }
+    let mut returned: Option<ReadBuf> = None;
+    match result {
+        Err(e) => {
+            let (k, m) = e.split_once(':').unwrap_or(("stuck", &e));
+            report(ctx, k, m.to_string());
+        }
+        Ok(Ok(b)) => {
+            if delivered < n {
+                report(ctx, "ok-before-n", format!("returned Ok with {delivered} bytes read, {n} were requested (requests: {})", fmt_reqs(&driver.seen)));
+            }
+            if eof_before_n {
+                report(ctx, "ok-after-eof", format!("returned Ok although the stream ended (0 bytes) before {n} bytes were read"));
+            }
+            let mut want = shadow.clone();
+            want.extend((0..delivered).map(|j| source_byte(delivered_before + j)));
+            if b.as_slice() != &want[..] {
+                report(ctx, "content", format!("the returned ReadBuf holds {} bytes that are not its earlier contents ({} bytes) followed by the {delivered} bytes the kernel delivered, in arrival order (requests: {})", b.len(), shadow.len(), fmt_reqs(&driver.seen)));
+            }
+            if let Some(sl) = slot {
+                if !b.is_empty() && b.as_slice().as_ptr().addr() != sl {
+                    report(ctx, "not-original-buffers", "the returned ReadBuf is not the pool buffer the kernel filled".into());
+                }
+            }
+            returned = Some(b);
+        }
+        Ok(Err(e)) => {
+            if e.kind() == io::ErrorKind::UnexpectedEof {
+                if !eof_before_n {
+                    report(ctx, "spurious-eof", format!("failed with UnexpectedEof although the stream did not end before {n} bytes (requests: {})", fmt_reqs(&driver.seen)));
+                }
+                classes.push("eof");
+            } else {
+                report(ctx, "unexpected-error", format!("failed with {e} although the kernel reported no error"));
+            }
+        }
+    }
+    let mut so_far = 0u64;
+    for (k, s) in driver.seen.iter().enumerate() {
+        let want_op = if case.op == Op::ReadN { abi::OP_READ } else { abi::OP_RECV };
+        if s.sqe.opcode != want_op {
+            report(ctx, "continuation-opcode", format!("request {k} uses opcode {} instead of {}", abi::opcode_name(s.sqe.opcode), abi::opcode_name(want_op)));
+        }
+        if !case.op.net() {
+            let want_off = if positional { start + so_far } else { u64::MAX };
+            if s.sqe.off != want_off {
+                report(ctx, "continuation-offset", format!("request {k} has offset {:#x}, expected {want_off:#x}", s.sqe.off));
+            }
+        } else {
+            let want_flags = if use_flags { raw_flags } else { 0 };
+            if s.sqe.op_flags != want_flags {
+                report(ctx, "continuation-flags", format!("request {k} carries msg_flags {:#x}, the caller chose {want_flags:#x}", s.sqe.op_flags));
+            }
+        }
+        so_far += s.n as u64;
+    }
+    if driver.seen.len() >= 3 {
+        classes.push(">=2-continuations");
+    }
+    {
+        let _s = track::scope(track::TAG_A10);
+        drop(returned);
+        drop(pool);
+    }
+    classes.sort();
+    classes.dedup();
+    for c in &classes {
+        ctx.class(c);
+    }
+    ctx.class(&format!("{:?}", case.op));
+    ctx.nontrivial = classes.iter().any(|c| matches!(*c, ">=2-continuations" | "partly-filled"));
+    ctx.fingerprint = format!("{:?}|pool|{}|{:x}", case.op, classes.join("|"), crate::common::fnv(&format!("{case:?}")) & 0xffff);
+}
+
+fn drop_pool(buf: a10::io::ReadBuf, pool: a10::io::ReadBufPool) {
+    let _s = track::scope(track::TAG_A10);
+    drop(buf);
+    drop(pool);
 }
